@@ -52,7 +52,7 @@ class C18(Prop):
     REAL_VS_STUB = {'real': ['dataflows/processors/parallelize.py (all of it)', 'Flow / iterable_loader / driver'],
                     'stub': ['multiprocessing.Queue/Process', 'threading.Thread/Lock/Event', 'queue.Queue', 'os.cpu_count/getpid', 'time (virtual clock)']}
     PROBES = ['line-preempt-run', 'clock-jumped', 'source-stalled', 'rowfunc-stalled', 'consumer-stalled', 'bypass-resource', 'default-num-processors',
-              'empty-stream', 'nothing-selected', 'first-selected-late', 'workers>rows', 'two-parallelize-stages', 'join-timeout-expired']
+              'empty-stream', 'nothing-selected', 'first-selected-late', 'workers>rows', 'two-parallelize-stages', 'join-timeout-expired', 'rowfunc-raised']
     TIERS = {'quick': dict(runs=4000, wall=100, run_wall=60),
              'thorough': dict(runs=150000, wall=1700, run_wall=60)}
     SHRINK_FROZEN = ()
@@ -80,6 +80,9 @@ class C18(Prop):
             sc['func_stalls'] = stalls(0.3, n)
         if rng.random() < 0.2:
             sc['consumer_stalls'] = stalls(0.2, n)
+        if rng.random() < 0.12 and n:
+            # the row function fails on some rows: documented to be reported and the row passed on - it must still be delivered exactly once
+            sc['func_raises'] = sorted(set(rng.randrange(n) for _ in range(rng.choice([1, 2]))))
         if rng.random() < 0.12:
             sc['two_stage'] = {'workers': rng.choice([1, 2]), 'predicate': rng.choice(['none', 'some', 'late'])}
         if sc['strategy'] == 'starve':
@@ -101,6 +104,7 @@ class C18(Prop):
         src_st = sc.get('source_stalls') or {}
         fn_st = sc.get('func_stalls') or {}
         con_st = sc.get('consumer_stalls') or {}
+        fn_raise = set(sc.get('func_raises') or [])
 
         def row_func(row):
             rid = row['_id']
@@ -110,6 +114,9 @@ class C18(Prop):
             if d:
                 ctx.probe('rowfunc-stalled')
                 s.sleep(d)
+            if rid in fn_raise:
+                ctx.probe('rowfunc-raised')
+                raise ZeroDivisionError('row function fails on row %d' % rid)
             row['c'] = rid * 7 + 1
 
         def source():
@@ -243,7 +250,7 @@ class C18(Prop):
         exp = {}
         for i in range(n):
             sel = selected(pk, n, i)
-            exp[i] = {'_id': i, 'a': 'v%d' % i, 'c': (i * 7 + 1) if sel else (None if i else -1), 'd': None if i else -1}
+            exp[i] = {'_id': i, 'a': 'v%d' % i, 'c': (i * 7 + 1) if sel and i not in fn_raise else (None if i else -1), 'd': None if i else -1}
             if two and selected(two['predicate'], n, i):
                 exp[i]['d'] = i * 3 + 2
         got_ids = sorted(r['_id'] for r in got)
